@@ -21,6 +21,11 @@ pub fn builtin() -> Vec<(&'static str, String)> {
         ("error-inside-nested-calls", "functie f(x) { [x, \"k\", 1 + ja] }; functie g() { stel l = [\"p\", 2.5]; f(l) }; [\"q\", g()]"),
         ("error-after-collection", "functie f() { \"tmp\" }; stel a = [f(), f()]; stel b = string(5); [1][3]"),
         ("array-aliasing", "stel a = [\"x\", 1.5]; stel b = a; functie f() { b[0] = string(7); a }; f(); [a, b, f()]"),
+        // `stop` / `volgende` inside a function whose definition sits in a loop leave the loop *and* the
+        // call (the frame stays open until the program ends): odd, but it has a defined outcome here
+        ("stop-inside-function-inside-loop", "stel i = 0; zolang i < 3 { i = i + 1; functie f() { stel t = [string(i)]; stop; }; f(); }; [\"klaar\", i]"),
+        ("volgende-inside-function-inside-loop", "stel i = 0; stel n = 0; zolang i < 3 { i = i + 1; functie g(a) { als a == 2 { volgende; }; [a, 2.5] }; g(i); n = n + 1; }; [string(n), i]"),
+        ("stop-inside-function-then-heap-result", "stel i = 0; zolang i < 1 { i = i + 1; functie f() { stop } f() } \"klaar\""),
         ("shadowed-heap-locals", "functie f(p) { stel a = [p]; { stel b = [a, \"s\"]; { stel c = [b, 2.5]; functie g() { 0 }; g(); c } } }; f(\"z\")"),
     ];
     let mut out: Vec<(&'static str, String)> = v.into_iter().map(|(n, s)| (n, s.to_string())).collect();
